@@ -222,10 +222,14 @@ def bad_attachment_reported_statement : Prop :=
     (badAttachmentB cfg r.st.ioDict = true → r.st.errors ≠ []) ∧
     NoHalfStart ⟨r.st.modules, r.st.errors, r.log, r.st.ioDict⟩
 
+/-- full statement, against the module list of the *configuration*.  (The two well-formedness hypotheses are what a
+Python `dict` guarantees — module names and parameter names are keys; without them the clause is false for trivial
+reasons: a value listed twice is written twice.) -/
 def writes_before_first_poll_statement : Prop :=
   ∀ (cfg : Cfg) (fuel : Nat) (sched : List Act) (pick : List Name → Nat),
     let r := run cfg fuel sched pick
     r.st.oof = false → r.st.errors = [] →
+    (names (allMods cfg r.st.ioDict)).Nodup → (∀ c ∈ allMods cfg r.st.ioDict, c.writes.Nodup) →
     WritesBeforeFirstPoll ((allMods cfg r.st.ioDict).filter (fun c => r.st.modules.contains c.name)) r.log
 
 /-- "configured start values are written before the first poll", order part, **full**: in the whole life of the node —
@@ -259,6 +263,21 @@ theorem writes_before_first_poll_partial (cfg : Cfg) (fuel : Nat) (sched : List 
   have hG := startup_groupsOk cfg fuel
   rw [run_write_count cfg fuel sched pick herr (uniqueOwner_of_groupsOk _ hG) t m p ht hm
     (members_nodup_of_groupsOk _ hG t), hp]
+
+/-- **exactly what is missing** for `writes_before_first_poll_statement`, as a hypothesis: `Linked U st` — every module
+description `c` of the list the clause is judged on has become a module object that carries `c`'s configured values
+and is registered with a poll thread that is started.  Under it the clause of the specification itself holds for the
+whole log — every schedule and choice function, any faults, communication failures included. -/
+def Linked (U : List ModCfg) (st : St) : Prop :=
+  ∀ c ∈ U, ∀ p ∈ c.writes, ∃ t ∈ threadsOf st, c.name ∈ members st t ∧ (cfgOf st c.name).writes.count p = 1
+
+theorem writes_before_first_poll_of_linked (cfg : Cfg) (fuel : Nat) (sched : List Act) (pick : List Name → Nat)
+    (herr : (run cfg fuel sched pick).st.errors = []) (U : List ModCfg)
+    (hl : Linked U (run cfg fuel sched pick).st) :
+    WritesBeforeFirstPoll U (run cfg fuel sched pick).log := by
+  intro c hc p hp
+  obtain ⟨t, ht, hm, hcnt⟩ := hl c hc p hp
+  exact writes_before_first_poll_partial cfg fuel sched pick herr t c.name p ht hm hcnt
 
 /-- the hypotheses are met by a node with a shared communicator, a failing write, a communication failure in the initial
 reads of the first member and in the first poll of the second, under a schedule that preempts the start loop -/
@@ -352,6 +371,12 @@ theorem comm_failure_writes_made_up :
        Ev.firstpoll "b"] ∧
     WritesBeforeFirstPoll [cfA, cfB] (run cfCfg 20 [] (fun _ => 0)).log ∧
     judge cfCfg ⟨(run cfCfg 20 [] (fun _ => 0)).st.modules, [], (run cfCfg 20 [] (fun _ => 0)).log, []⟩ = [] := by
+  decide +kernel
+
+/-- `Linked` is met by the configuration of the former finding (so `writes_before_first_poll_of_linked` gives the clause
+for it without evaluating the log) -/
+example : Linked [cfIo, cfA, cfB] (run cfCfg 20 [] (fun _ => 0)).st := by
+  unfold Linked
   decide +kernel
 
 /-- the sequence of a poll thread as `Module.__pollThread` produced it **before** the repair (no `writeInitParams` behind
